@@ -121,3 +121,12 @@ func (s *System) VerifStreamEntries() (forward map[string]int, reverse map[strin
 	}
 	return
 }
+
+// VerifRootChildren returns the paths in the root context's children table (quiescent systems only).
+func (s *System) VerifRootChildren() []string {
+	var out []string
+	for p := range s.Context.children {
+		out = append(out, p)
+	}
+	return out
+}
